@@ -127,6 +127,13 @@ TextOK(ev) ==
             /\ ev.r3.ok /\ ev.r3.v = ev.v
       [] ev.op = "dec_to128"   -> IF Fits128(ev.v) THEN ev.r.ok /\ ev.r.v = ev.v ELSE ~ev.r.ok
       [] ev.op = "dec_from128" -> ev.r.ok /\ ev.r.v = ev.v
+      [] ev.op = "uint_to128"  ->
+            /\ IF Fits128(ev.v) THEN ev.r.ok /\ ev.r.v = ev.v ELSE ~ev.r.ok
+            /\ IF Fits128(ev.v) THEN ev.r2.ok /\ ev.r2.v = ev.v ELSE ~ev.r2.ok
+      [] ev.op = "uint_from128" ->
+            /\ ev.r.ok /\ ev.r.v = ev.v
+            /\ ev.r2.ok /\ ev.r2.v = ev.v
+            /\ ev.r3.ok /\ ev.r3.v = ev.low64
 
 Check(ev) ==
     CASE ev.k = "swap" -> SwapChecks(ev.x, ev.y, ev.a, ev.c, ev.r)
